@@ -33,6 +33,8 @@ func checkC12(r *Report, p *Program) {
 	oneWritePerChild(r, p, "R12.13")
 	resultKeptOnSuccess(r, p, "R12.14", 1)
 	siblingStepsIndependent(r, p, "R12.15")
+	benignMeansNil(r, p, "R12.17")
+	claimToleranceConverse(r, p, "R12.18")
 	retriesReallyRetry(r, p, "R12.16", 1)
 }
 
